@@ -2,7 +2,7 @@
    Statements only; every proof is `exact <lemma of Proofs/C44_proofs.v>`.
    srcs = the sources in the order get_sources() produces them, each paired with what its
    authenticate() does (oracle); any length, including 0. *)
-From PV Require Import Bytes C44 C44_proofs.
+From PV Require Import Bytes AuthShape C44_gen C44 C44_proofs.
 Open Scope Z_scope.
 
 (* a successful run called exactly the sources up to and including the first one that
@@ -61,6 +61,29 @@ Theorem C44_complete :
         authenticate srcs = Propagated e pre s).
 Proof. exact authenticate_spec. Qed.
 Print Assumptions C44_complete.
+
+(* the shape facts read off paramiko/auth_strategy.py and client.py on this run (Gen/C44_gen.v)
+   are the ones the model assumes: one `for source in self.get_sources()` loop; exactly one
+   source.authenticate(transport) call, inside the try; `except Exception` records the exception;
+   SourceResult(source, result) appended for every attempted source before the break; break on
+   success; `if not succeeded: raise AuthFailure(result=overall_result)`; `return overall_result`;
+   each AuthSource class makes one call of the expected Transport method and returns its value;
+   SSHClient.connect hands the transport to auth_strategy.authenticate once and returns its result *)
+Theorem C44_source_shape :
+  src_loop_shape = expected_loop_shape /\
+  src_source_facts = expected_source_facts /\
+  src_source_result_fields = expected_source_result_fields /\
+  src_auth_result_bases = expected_auth_result_bases /\ src_auth_result_keeps_strategy = true /\
+  src_auth_failure_bases = expected_auth_failure_bases /\ src_auth_failure_keeps_result = true /\
+  src_client_glue = expected_client_glue.
+Proof. exact source_shape. Qed.
+Print Assumptions C44_source_shape.
+
+(* hence the loop of the source as it is now (the shape-driven loop evaluated at the generated
+   shape, which is what the correspondence run executes) is the model of the theorems above *)
+Theorem C44_model_is_source_loop : forall srcs, authenticate_src srcs = authenticate srcs.
+Proof. exact authenticate_src_is_model. Qed.
+Print Assumptions C44_model_is_source_loop.
 
 (* non-vacuity *)
 Example C44_example_success :
